@@ -327,7 +327,9 @@ class Image(Traversable):
         return export_name
 
 
-    _STEREO_FILENAME = re.compile(r"(.*?)([\s-]+)(L|R)\s*$")
+    # (the separator run is taken from where it begins: trying every position 
+    # inside a long run of dashes or blanks takes quadratic time)
+    _STEREO_FILENAME = re.compile(r"(.*?)((?<![\s-])[\s-]+)(L|R)\s*$")
     def _add_count_to_name(self, name: str, count: int) -> str:
         count_str = "(" + str(count) + ")"
         delim = " "
